@@ -132,6 +132,10 @@ pub struct Violation {
     pub what: String,
     /// the replay: op lines (or a description) that reproduce it on the implementation
     pub replay: Vec<String>,
+    /// 1-based number of the op line on which it showed (0 = not tied to one line). A known finding
+    /// only suppresses a violation whose line the model answers identically (i.e. the model exhibits
+    /// the same, recorded, defect); otherwise it is a different violation with the same symptom.
+    pub line: u64,
 }
 
 /// Collects the two files of the correspondence check plus the oracle's findings and statistics.
@@ -190,11 +194,17 @@ impl Out {
         }
     }
     pub fn violation(&mut self, key: String, what: String, replay: Vec<String>) {
-        if self.violations.iter().any(|v| v.key == key) {
+        self.violation_at(key, what, replay, 0)
+    }
+    pub fn violation_at(&mut self, key: String, what: String, replay: Vec<String>, line: u64) {
+        // one entry per key, but keep up to 40 distinct lines of the same key (the runner needs them
+        // to tell a recorded finding from a new cause with the same symptom)
+        let same = self.violations.iter().filter(|v| v.key == key).count();
+        if (line == 0 && same > 0) || same >= 40 {
             return;
         }
-        if self.violations.len() < 200 {
-            self.violations.push(Violation { key, what, replay });
+        if self.violations.len() < 400 {
+            self.violations.push(Violation { key, what, replay, line });
         }
     }
     pub fn finish(mut self, stream: &str, rule: &str) {
@@ -238,7 +248,7 @@ impl Out {
             if i > 0 {
                 s.push(',');
             }
-            let _ = write!(s, "{{\"key\":{},\"what\":{},\"replay\":[", json_str(&v.key), json_str(&v.what));
+            let _ = write!(s, "{{\"key\":{},\"what\":{},\"line\":{},\"replay\":[", json_str(&v.key), json_str(&v.what), v.line);
             for (j, l) in v.replay.iter().enumerate() {
                 if j > 0 {
                     s.push(',');
